@@ -1,4 +1,7 @@
-// Standalone reproductions of the C05/C06 findings on the unchanged library (public API only).
+// Standalone reproductions of the C05/C06 findings (public API only) on the library BEFORE the fix commits
+// 'truncated column index max…', 'float column indexes claim no boundary order…', 'chunk statistics replace a
+// NaN bound…', 'AVX-512 min/max of 16-byte values…', 'AVX-512 orderOf kernels…', 'fixed-length column indexes…'.
+// On the repaired tree every line prints the correct result.
 //
 //	cd <scratch module with `replace github.com/parquet-go/parquet-go => <repo>`>
 //	GOFLAGS=-mod=mod GOPROXY=off go run ./main.go            # assembly build
